@@ -212,25 +212,27 @@ theorem stride_iff_hit {q step low k n : ℕ} (hstep : 0 < step) (hs : StrideOK 
       exact ⟨c, by rw [Nat.mul_comm]; omega⟩
 
 /-- **level step**: crossing off from `next[b]` lifts the window `[low, high)` from level `b − 1` to level `b` and
-    leaves `next[b]` ready for a window starting at `high` -/
-theorem crossOff_level {s : Array Bool} {low high b step k : ℕ} (hb : 1 ≤ b) (hlh : low ≤ high)
+    leaves `next[b]` ready for a window starting at `high` (the number 0, at index 0 of pi_lmo2's unsegmented sieve, is
+    never crossed and never looked at: hence `max low 1`) -/
+theorem crossOff_level {s : Array Bool} {low high b step k : ℕ} (hb : 1 ≤ b)
     (hOK : SieveOK s low (high - low) (b - 1))
     (hs : step = Spec.p b ∨ (step = 2 * Spec.p b ∧ 2 ≤ b))
-    (hk : IsNext (Spec.p b) step low k) :
+    (hk : IsNext (Spec.p b) step (max low 1) k) :
     SieveOK (crossOff low high step (high - low) k s).2 low (high - low) b ∧
-      IsNext (Spec.p b) step high (crossOff low high step (high - low) k s).1 := by
+      (max low 1 ≤ high → IsNext (Spec.p b) step high (crossOff low high step (high - low) k s).1) := by
   have hppos : 0 < Spec.p b := Spec.p_pos b
   have hstep : 0 < step := by rcases hs with h | ⟨h, _⟩ <;> omega
   have hsOK : StrideOK (Spec.p b) step := by
     rcases hs with h | ⟨h, hb2⟩
     · exact Or.inl h
     · exact Or.inr ⟨h, Spec.p_odd hb2⟩
-  obtain ⟨_, h2, h3, ⟨t, h4⟩, h5⟩ := crossOff_spec low high step hstep (high - low) k s hk.ge (by have := hk.ge; omega)
-  refine ⟨?_, ?_, ?_, ?_⟩
+  have hlk : low ≤ k := le_trans (le_max_left _ _) hk.ge
+  obtain ⟨_, h2, h3, ⟨t, h4⟩, h5⟩ := crossOff_spec low high step hstep (high - low) k s hlk (by omega)
+  refine ⟨?_, fun hlh => ⟨h3, ?_, ?_⟩⟩
   · intro j hj hpos
     rw [h2 j]
     have hlt : low + j < high := by omega
-    have hiff := stride_iff_hit hstep hsOK hk (n := low + j) (by omega)
+    have hiff := stride_iff_hit hstep hsOK hk (n := low + j) (by rw [Nat.max_le]; omega)
     have hbb : b - 1 + 1 = b := by omega
     rw [← hbb, unsieved_succ, hbb, ← hOK j hj hpos]
     simp only [Bool.and_eq_true, Bool.not_eq_true', decide_eq_false_iff_not]
@@ -250,11 +252,19 @@ theorem crossOff_level {s : Array Bool} {low high b step k : ℕ} (hb : 1 ≤ b)
       refine ⟨hsj, ?_⟩
       rintro ⟨t, ht, _⟩
       exact hnd (hiff.1 ⟨t, ht⟩).1
-  · exact h3
   · rcases h5 with h5 | h5
     · exact h5
     · rw [h5]; have := hk.lt; omega
   · rw [h4]; exact hit_add_stride hsOK hk.hit t
+
+/-- `next[b] = primes[b]` is the first multiple (the first odd multiple for `b ≥ 2`) that is `≥ 1` -/
+theorem isNext_init {b step : ℕ} (hs : step = Spec.p b ∨ (step = 2 * Spec.p b ∧ 2 ≤ b)) :
+    IsNext (Spec.p b) step 1 (Spec.p b) := by
+  have hppos : 0 < Spec.p b := Spec.p_pos b
+  refine ⟨hppos, by rcases hs with h | ⟨h, _⟩ <;> omega, dvd_rfl, fun hne => ?_⟩
+  rcases hs with h | ⟨_, hb2⟩
+  · exact absurd h hne
+  · exact Spec.p_odd hb2
 
 /-! ### the leaf loop -/
 
